@@ -40,6 +40,7 @@ type Engine struct {
 	AllFuncs      []*ssa.Function
 	keyTypes      map[string]keyType
 	implCache     map[string][]*ssa.Function
+	dumps         map[string]*tableDump
 	ConcreteTypes []types.Type // all named types (and pointers) in module, for iface tags
 	typeIDs       map[string]int
 	typeByID      []types.Type
@@ -83,7 +84,8 @@ type Contract struct {
 	File        string
 	Line        int
 	Trusted     bool
-	Proof       string // lemma proof hint: "", "induction <var>"
+	Proof       string   // lemma proof hint: "", "induction <var>"
+	Globals     []string // package-level tables whose dumped contents are assumed at entry ("Name" or "pkg.Name")
 }
 
 type letDef struct {
@@ -217,7 +219,7 @@ func (eng *Engine) typeID(t types.Type) int {
 var clauseKeywords = map[string]bool{
 	"spec": true, "pred": true, "func": true, "lemma": true, "mode": true, "requires": true, "ensures": true,
 	"modifies": true, "let": true, "loop": true, "use": true, "table": true, "property": true, "opt": true,
-	"trusted": true, "iface": true, "field": true, "proof": true, "abstract": true,
+	"trusted": true, "iface": true, "field": true, "proof": true, "abstract": true, "globals": true,
 }
 
 type rawClause struct {
@@ -355,6 +357,12 @@ func (eng *Engine) loadContractFile(pkg *packages.Package, file string) error {
 				} else {
 					cur.Opts[strings.TrimSpace(rc.text)] = "true"
 				}
+			case "globals":
+				for _, g := range strings.Split(rc.text, ",") {
+					if g = strings.TrimSpace(g); g != "" {
+						cur.Globals = append(cur.Globals, g)
+					}
+				}
 			case "trusted":
 				cur.Trusted = true
 			case "proof":
@@ -474,6 +482,27 @@ func (eng *Engine) resolveType(pkg *packages.Package, text string) (types.Type, 
 	switch text {
 	case "real":
 		return types.Typ[types.Float64], nil
+	}
+	if strings.HasPrefix(text, "*") {
+		t, err := eng.resolveType(pkg, text[1:])
+		if err != nil {
+			return nil, err
+		}
+		return types.NewPointer(t), nil
+	}
+	if strings.HasPrefix(text, "[]") {
+		t, err := eng.resolveType(pkg, text[2:])
+		if err != nil {
+			return nil, err
+		}
+		return types.NewSlice(t), nil
+	}
+	if i := strings.Index(text, "."); i > 0 && !strings.ContainsAny(text, "[]() ") {
+		for _, p := range eng.ByName[text[:i]] {
+			if obj, ok := p.Types.Scope().Lookup(text[i+1:]).(*types.TypeName); ok {
+				return obj.Type(), nil
+			}
+		}
 	}
 	tv, err := types.Eval(eng.Fset, pkg.Types, token.NoPos, text)
 	if err != nil {
